@@ -313,6 +313,23 @@ func genC06(o *out, r *Rng) {
 		o.add(x)
 		o.add(E2E(t.Canon(), Opts{Opt: r.P(50), Sw: defSw}))
 	}
+	// inline data of AutoVar commands inside conditions: numbered in order of first appearance in the SOURCE, also when a
+	// parenthesised group comes first (the texts of a group are hoisted before those of the operands that follow it)
+	avq := func(k int) string {
+		return []string{fmt.Sprintf("msgbox(\"ask %d\", MSGBOX_YESNO) == YES", k), fmt.Sprintf("multichoice(0, 0, moves(walk_up * %d)) == 1", 1+k%4), fmt.Sprintf("checkitem(ascii\"it %d\", 1) != 0", k)}[k%3]
+	}
+	for i, cd := range []string{"(%s) && %s", "(%s) || %s", "(%s && %s) || %s", "%s && (%s || %s)", "!(%s) && %s", "((%s)) && (%s) && %s", "flag(A) || (%s) && %s", "(%s || flag(B)) && (%s) && %s"} {
+		n := strings.Count(cd, "%s")
+		args := make([]interface{}, n)
+		for j := range args {
+			args[j] = avq(3*i + j + 1)
+		}
+		c := fmt.Sprintf(cd, args...)
+		for _, s := range []string{"script S { if (" + c + ") { a } msgbox(\"after\") }", "script S { msgbox(\"before\") while (" + c + ") { a } }", "script S { do { msgbox(\"body\") } while (" + c + ") }",
+			"script S { if (flag(Z)) { z } elif (" + c + ") { msgbox(\"in\") } }\nscript T { msgbox(\"ask 1\") }", "mapscripts M { MAP_SCRIPT_ON_LOAD { if (" + c + ") { a } } }"} {
+			o.e2eBoth(s, Opts{Sw: defSw})
+		}
+	}
 	// several inline map scripts in one mapscripts statement, each introducing inline texts and moves() of its own (the
 	// numbering is per owning inline script although all of them are hoisted after the one top-level statement)
 	for i := 0; i < scale(150, 3000); i++ {
